@@ -243,6 +243,10 @@ def run_case(case, ctx):
                         pass
                     _T.clear()
                 coefs, info = tobj(z0_given)
+            elif case['r'] is not None and not case.get('max_iter') and (case['n'] + int(abs(case['z0'][0]) * 10)) % 3 == 0:
+                # the documented signature taylor(fun, z0, n, r, num_extrap, step_ratio) used positionally
+                ctx.count('taylor_arguments_given_positionally')
+                coefs, info = fb.taylor(f, z0_given, n_given, case['r'], case['num_extrap'], case['step_ratio'], full_output=True)
             else:
                 coefs, info = fb.taylor(f, z0_given, n=n_given, **kw)
             if case['via'] == 'derivative':
